@@ -699,7 +699,7 @@ func (o *allocOracle) c11(s *ctlSys, hist []verifrt.Event, pre *preSnap, holders
 			}
 		}
 		if okRebuild {
-			a, b := s.c.ips.VerifDump(), fresh.VerifDump()
+			a, b := s.c.ips.VerifContent(), fresh.VerifContent()
 			if a != b {
 				o.violate(s, hist, "C11 memory differs from a rebuild from the surviving assignments first-diff="+firstDiffLabel(a, b), "live:\n"+a+"rebuilt:\n"+b)
 			}
